@@ -1240,9 +1240,34 @@ class Cx:
         return d
 
     def e_IfExp(self, e, fr):
-        if self.truth(self.ev(e.test, fr)):
+        t = self.ev(e.test, fr)
+        if isinstance(t, BV) and t.as_const() is None and \
+                self._simple_value(e.body) and self._simple_value(e.orelse):
+            # `a if <symbolic> else b` over plain numbers: a per-bit
+            # if-then-else instead of two runs
+            a = self.ev(e.body, fr)
+            b = self.ev(e.orelse, fr)
+            if isinstance(a, (int, BV)) and isinstance(b, (int, BV)) and \
+                    not isinstance(a, bool) and not isinstance(b, bool) and \
+                    (isinstance(a, BV) or a >= 0) and \
+                    (isinstance(b, BV) or b >= 0):
+                from .symx import c_ite
+                cond = t.any_set()
+                A, B = _bv(a), _bv(b)
+                n = max(len(A.cells), len(B.cells))
+                return _norm(BV([c_ite(cond, A.cell(k), B.cell(k))
+                                 for k in range(n)]).trimmed())
+            return a if self.truth(t) else b
+        if self.truth(t):
             return self.ev(e.body, fr)
         return self.ev(e.orelse, fr)
+
+    @staticmethod
+    def _simple_value(e):
+        """no calls, no side effects: safe to evaluate both branches"""
+        return not any(isinstance(x, (ast.Call, ast.Yield, ast.YieldFrom,
+                                      ast.NamedExpr, ast.Await))
+                       for x in ast.walk(e))
 
     def e_BoolOp(self, e, fr):
         v = None
@@ -1459,7 +1484,51 @@ class Cx:
         raise PyRaise('TypeError', ('not subscriptable: ' +
                                     type(base).__name__,))
 
+    def sum_of_comprehension(self, comp, fr, start=0):
+        """sum(<elt> for ... if <cond>) where a filter depends on symbolic
+        content: each element contributes `elt if cond else 0` bit-wise"""
+        from .symx import c_and, c_ite
+        acc = [start]
+
+        def rec(i, f, cond):
+            if i == len(comp.generators):
+                v = self.ev(comp.elt, f)
+                if cond is not None:
+                    if not isinstance(v, (int, BV)) or isinstance(v, bool) \
+                            or (isinstance(v, int) and v < 0):
+                        raise CxError('conditional sum of a non-number')
+                    V = _bv(v)
+                    v = _norm(BV([c_ite(cond, V.cell(k), ZERO)
+                                  for k in range(len(V.cells))]).trimmed())
+                acc[0] = self.binop(ast.Add(), acc[0], v)
+                return
+            g = comp.generators[i]
+            for x in self.items(self.ev(g.iter, f)):
+                self.tick()
+                self.assign(g.target, x, f)
+                c2 = cond
+                skip = False
+                for c in g.ifs:
+                    t = self.ev(c, f)
+                    if isinstance(t, BV) and t.as_const() is None:
+                        cell = t.any_set()
+                        c2 = cell if c2 is None else c_and(c2, cell)
+                    elif not self.truth(t):
+                        skip = True
+                        break
+                if not skip:
+                    rec(i + 1, f, c2)
+        rec(0, Frame(fr.module, {}, fr.func, parent=fr), None)
+        return acc[0]
+
     def e_Call(self, e, fr):
+        if isinstance(e.func, ast.Name) and e.func.id == 'sum' and \
+                not fr.has('sum') and len(e.args) in (1, 2) and \
+                isinstance(e.args[0], (ast.GeneratorExp, ast.ListComp)) \
+                and not e.keywords and any(
+                    g.ifs for g in e.args[0].generators):
+            start = self.ev(e.args[1], fr) if len(e.args) == 2 else 0
+            return self.sum_of_comprehension(e.args[0], fr, start)
         fn = self.ev(e.func, fr)
         args = []
         for a in e.args:
